@@ -13,7 +13,8 @@ AllLeaves == [ nil |-> [k |-> "nil"], t |-> [k |-> "bool", v |-> TRUE], f |-> [k
                z |-> [k |-> "int", i |-> I(0, FALSE)], m1 |-> [k |-> "int", i |-> I(1, TRUE)],
                big |-> [k |-> "int", i |-> [neg |-> FALSE, mag |-> <<0, 0, 0, 0, 0, 0, 0, 0, 64>>]],
                f0 |-> [k |-> "float", f |-> <<0, 0, 0, 0, 0, 0, 0, 0>>], f15 |-> [k |-> "float", f |-> <<0, 0, 0, 0, 0, 0, 248, 63>>],
-               es |-> [k |-> "str", b |-> <<>>], a |-> [k |-> "str", b |-> <<97>>], n0 |-> [k |-> "num", b |-> <<48>>] ]
+               es |-> [k |-> "str", b |-> <<>>], a |-> [k |-> "str", b |-> <<97>>], n0 |-> [k |-> "num", b |-> <<48>>],
+               ctl |-> [k |-> "str", b |-> <<16, 31, 1, 34, 92, 127>>] ]        \* control bytes, a quote, a backslash: what the JSON rendering has to escape
 LeafSet == {AllLeaves[x] : x \in Leaves}
 Keys == {<<>>, <<97>>}
 Arr(es, nil) == [k |-> "arr", nil |-> nil, e |-> es]
@@ -29,7 +30,7 @@ VARIABLES st, x, pos
 vars == <<st, x, pos>>
 Init == st = "tree" /\ x = [k |-> "nil"] /\ pos = ""
 Next == \/ st = "tree" /\ \E t \in Trees(Depth) : t.k \in {"arr", "obj"} /\ x' = t /\ st' = "pos" /\ pos' = pos
-        \/ st = "pos" /\ \E p \in {"top", "field", "skipped", "re0", "re1", "re4"} : pos' = p /\ st' = "done" /\ x' = x
+        \/ st = "pos" /\ \E p \in {"top", "field", "skipped", "skippedlast", "re0", "re1", "re4"} : pos' = p /\ st' = "done" /\ x' = x
 Spec == Init /\ [][Next]_vars
 Done == st = "done"
 
@@ -63,6 +64,10 @@ CaseJson == IF pos \in {"re0", "re1", "re4"}
               THEN ToJson([ev |-> "evolve", S |-> Holder, S2 |-> Holder, v |-> HV, prior |-> <<[neg |-> FALSE, mag |-> <<1>>], PriorJ, <<112>>>>, u |-> <<pos>>])
             ELSE IF pos = "top" THEN ToJson([ev |-> "codec", T |-> JsT, v |-> x, u |-> <<pos>>])
             ELSE IF pos = "field" THEN ToJson([ev |-> "codec", T |-> Holder, v |-> HV, u |-> <<pos>>])
+            \* the skipped field is the last thing on the wire: what Skip reports ends exactly at the end of the data
+            ELSE IF pos = "skippedlast"
+              THEN ToJson([ev |-> "evolve", S |-> St(<<F("A", 1, IntT), F("Z", 3, [k |-> "string"]), F("J", 2, JsT)>>), S2 |-> Lacking,
+                           v |-> <<Seven, <<122>>, x>>, prior |-> <<[neg |-> FALSE, mag |-> <<1>>], <<112>>>>, u |-> <<pos>>])
             ELSE ToJson([ev |-> "evolve", S |-> Holder, S2 |-> Lacking, v |-> HV, prior |-> <<[neg |-> FALSE, mag |-> <<1>>], <<112>>>>, u |-> <<pos>>])
 EmitCase == (Done /\ Emit) => PrintT(<<"CASE", CaseJson>>)
 =============================================================================
